@@ -317,11 +317,11 @@ def run(ctx):
     ctx.assumptions = ['hashes of rewritten Manifests are supplied to the model from the real post-state (hashing is not modelled)']
     drv = common.Driver()
     try:
-        for i in range(250 if ctx.tier == 'quick' else 6000):
+        for i in range(400 if ctx.tier == 'quick' else 6000):
             one_case(ctx, drv)
-        for i in range(60 if ctx.tier == 'quick' else 1500):
+        for i in range(120 if ctx.tier == 'quick' else 1500):
             lookalike_case(ctx, drv)
-        for i in range(80 if ctx.tier == 'quick' else 2000):
+        for i in range(160 if ctx.tier == 'quick' else 2000):
             dup_manifest_case(ctx, drv)
     finally:
         drv.close()
